@@ -270,6 +270,101 @@ def unnormalised_default_stream(ctx, res):
                     res.violate("C12:untouched-default-changed", "a field that was neither assigned nor loaded no longer holds the default it started with", case)
 
 
+def copies_and_failed_loads_stream(ctx, res):
+    """(a) configurations that are copies — the per-configuration copies of item configurations declared in a list default, and
+    copy.deepcopy of a configuration: an assignment or reset on one of them changes the user-defined status of no other;
+    (b) a load in which every value is accepted and the validation of the configuration as a whole then fails (a schema validator, a
+    required field the document does not give): afterwards every field is either as loaded and user-defined, or as before with the
+    status it had before — never the old value marked user-defined, never the new value marked default"""
+    import cincoconfig as cc
+    from cincoconfig.support import validator as register
+    # (a)
+    for typed in (False, True):
+        node = cc.Schema()
+        node.host = cc.StringField(default="seed-1")
+        node.port = cc.IntField(default=80)
+        node.tls.verify = cc.BoolField(default=True)
+        N = cc.make_type(node, "CopyNode") if typed else node
+        s = cc.Schema()
+        s.cluster.nodes = cc.ListField(N, default=[N(host="seed-1")])
+        s.name = cc.StringField(default="n")
+        a, b = s(), s()
+        case = {"stream": "copies", "config_type": typed}
+        res.case(stable(case), kind="copies")
+        try:
+            before = [cc.is_value_defined(b.cluster.nodes[0], k) for k in ("host", "port", "tls.verify")]
+            a.cluster.nodes[0].port = 8080
+            a.cluster.nodes[0].tls.verify = False
+            cc.reset_value(a.cluster.nodes[0], "host")
+            after = [cc.is_value_defined(b.cluster.nodes[0], k) for k in ("host", "port", "tls.verify")]
+            later = s()
+            fresh = [cc.is_value_defined(later.cluster.nodes[0], k) for k in ("port", "tls.verify")]
+            if before != after or fresh != [False, False] or b.cluster.nodes[0].port != 80:
+                res.violate("C12:status-shared-between-copies", "an assignment / reset on one configuration's default item changed the user-defined status another configuration reports",
+                            dict(case, other_before=before, other_after=after, later=fresh))
+            dup = copy.deepcopy(a)
+            was = cc.is_value_defined(a, "name")
+            dup.name = "changed-on-the-copy"
+            cc.reset_value(dup.cluster.nodes[0], "port")
+            if cc.is_value_defined(a, "name") != was or a.name != "n" or not cc.is_value_defined(a.cluster.nodes[0], "port"):
+                res.violate("C12:status-shared-between-copies", "an assignment / reset on a deep copy of a configuration changed the original's user-defined status", case)
+        except Exception as e:  # noqa
+            res.violate("C12:status-shared-between-copies", "copies of configurations raised %s" % type(e).__name__, dict(case, error=str(e)[:120]))
+    # (b)
+    for why in ("schema-validator", "missing-required"):
+        for depth in (0, 2):
+            for route in ("load_tree", "json"):
+                leaf = cc.Schema()
+                leaf.lo = cc.IntField(default=1)
+                leaf.hi = cc.IntField(default=10)
+                leaf.step = cc.IntField(default=1)
+                leaf.label = cc.StringField(required=(why == "missing-required"))
+
+                @register(leaf)
+                def lo_le_hi(c):
+                    if c.lo is not None and c.hi is not None and c.lo > c.hi:
+                        raise ValueError("lo > hi")
+                s = cc.Schema()
+                holder = s
+                for lvl in range(depth):
+                    holder = getattr(holder, "lvl%d" % lvl)
+                holder.limits = leaf
+                cfg = s()
+                owner = cfg
+                for lvl in range(depth):
+                    owner = owner._data["lvl%d" % lvl]
+                doc_leaf = {"lo": 50, "hi": 20, "step": 5, "label": "x"} if why == "schema-validator" else {"lo": 2, "hi": 20, "step": 5}
+                tree = {"limits": doc_leaf}
+                for lvl in reversed(range(depth)):
+                    tree = {"lvl%d" % lvl: tree}
+                lim = owner._data["limits"]
+                before = {k: (lim._data.get(k), cc.is_value_defined(lim, k)) for k in ("lo", "hi", "step")}
+                try:
+                    if route == "load_tree":
+                        cfg.load_tree(copy.deepcopy(tree))
+                    else:
+                        cfg.loads(json.dumps(tree).encode(), format="json")
+                    raised = False
+                except Exception:  # noqa
+                    raised = True
+                owner = cfg
+                for lvl in range(depth):
+                    owner = owner._data["lvl%d" % lvl]
+                lim = owner._data["limits"]
+                after = {k: (lim._data.get(k), cc.is_value_defined(lim, k)) for k in ("lo", "hi", "step")}
+                case = {"stream": "failed-whole-validation", "why": why, "depth": depth, "route": route, "raised": raised, "before": before, "after": after}
+                res.case(stable(case), kind="failed-whole-validation:%s" % ("raised" if raised else "returned"))
+                if not raised:
+                    continue
+                for k in ("lo", "hi", "step"):
+                    loaded = after[k] == (doc_leaf[k], True)
+                    untouched = after[k] == before[k]
+                    if not (loaded or untouched):
+                        res.violate("C12:status-after-failed-load", "after a load whose final validation failed a field is neither as loaded and user-defined nor as it was before",
+                                    dict(case, field=k))
+                        break
+
+
 def env_empty_stream(ctx, res, n):
     """a value loaded for a field whose environment variable is set but empty is held and user-defined"""
     import cincoconfig as cc
@@ -476,6 +571,7 @@ def run(ctx, n_quick=250, n_thorough=8000):
     guard(res, "C12", callable_stream, ctx, res, ctx.n(3, 30))
     guard(res, "C12", callable_kinds_stream, ctx, res)
     guard(res, "C12", unnormalised_default_stream, ctx, res)
+    guard(res, "C12", copies_and_failed_loads_stream, ctx, res)
     guard(res, "C12", env_empty_stream, ctx, res, ctx.n(4, 60))
     guard(res, "C12", ctor_env_stream, ctx, res, ctx.n(120, 3000))
     guard(res, "C12", mutable_default_stream, ctx, res, ctx.n(40, 1500))
